@@ -246,6 +246,29 @@ class Facts:
     def with_closures(self, key):
         return [key] + self.closures_of(key)
 
+    def closure_builders(self, ck):
+        """bodies that may build closure `ck` (its owner, the owner's other closures, and — for a closure of a transparent helper — the callers it is
+        inlined into)"""
+        owner = ck.rsplit("::{closure", 1)[0]
+        cands = [owner] + [k for k in self.with_closures(owner.split("::{closure")[0]) if k != owner]
+        if self.new_fns and owner.split("::{closure")[0] in self.new_fns:
+            cands += [k2 for k in self.fns if "::{closure" not in k and k not in self.new_fns and owner.split("::{closure")[0] in self.transparent_callees(k)
+                      for k2 in self.with_closures(k)]
+        return [k for k in cands if k in self.fns and self.fns[k].get("mir")]
+
+    def closure_use(self, ck):
+        """(body, block, call terminator, argument position) of the call that closure `ck` is handed to (an iterator / Option adaptor), or None"""
+        for pk in self.closure_builders(ck):
+            pb = self.body(pk)
+            for _bi, _si, st in pb.stmts():
+                if st["k"] == "assign" and st["rv"].get("closure") == ck:
+                    cl = st["p"]["l"]
+                    for b2, t2 in pb.calls():
+                        for ai, a in enumerate(t2["args"]):
+                            if (op_place(a) or {}).get("l") == cl and not (op_place(a) or {}).get("pr"):
+                                return pb, b2, t2, ai
+        return None
+
     def captured(self, ck, place):
         """`place` (a MIR place of closure `ck`) reads a captured variable: -> (body that builds the closure, operand captured there), else None.
         Name-free: the i-th field of the closure environment (_1) is the i-th operand of the closure aggregate in the builder."""
